@@ -374,11 +374,14 @@ func c15Profile() gProfile {
 
 const c15Rule = "one prefix of PRNG group operations (join/sync/heartbeat/leave/commit/time/settle rounds, occasional earlier failovers) is run on coordinator A whose store decorator tees every write into identical shadow stores; at the failover point (any point between requests, aligned to a cleanup tick) twin B = a NEW coordinator over the very store A wrote to, twin A keeps running on a shadow (= no failover happened), twin C = a new coordinator over a shadow that returns exactly the last record written. Checked: (0) the group record read back from the store equals the record the coordinator last wrote, field by field; (1) immediately after failover B reports the same group (DescribeGroups + stored generation/state/leader/members/subscriptions/assignments) as A; (2) if the group was Stable: every member heartbeats, syncs, commits, fetches, then a PRNG suffix of heartbeats/syncs/commits/time advances by active and silent members (no re-join), then a final re-join of each member: every reply (codes, assignment bytes decoded, generation, leader, member list with subscriptions, fetched offsets) and the reported group after every step are equal between A and B; (3) otherwise: heartbeat/sync/commit replies equal and the first JoinGroup reports the same generation/member id/leader. A divergence B!=A that twin C does not show is classified as the store's read-back loss found in (0); one that C shows too is a coordinator restore defect."
 
+const c15RuleConcurrent = "Part 1b (InMemoryStore, virtual time; counters prefixed conc_): the prefix ends in 1-2 pairs of requests by two clients that are in flight AT ONCE on coordinator A: the store decorator holds one chosen store call of request A (mostly its group record write: PutConsumerGroup/DeleteConsumerGroup of a heartbeat, join, leader sync or leave, or CommitConsumerOffset of a commit; held before the real store executes it, sometimes after) while request B of another client (a new member's join, a leave, a join with a changed subscription, a session expiry by passage of virtual time, a heartbeat/commit/sync) is sent; if the coordinator holds its lock across the store call (found by TryLock on its mutex fields, no timing) B simply runs after A, otherwise B runs to completion inside A's store call and A's write reaches the store (and the identical shadows) afterwards; both requests have been answered before anything else is done. The failover follows directly or after a few further requests, and the twins are compared exactly as in part 1 (classes then carry the prefix diverges_after_failover_following_overlapped_requests:). Only acknowledged requests precede the failover: nothing is demanded about a write still in flight. The written-vs-read-back comparison (0) is skipped in a case where a request ran inside another one's store call (the record written last by call order need not be the one that reached the store last); a case whose two overlapped requests finished in an order the harness does not know is not judged. non-trivial here additionally requires that a second client's request was ready while the first one was inside its store call."
+
 func TestVerifC15(t *testing.T) {
 	r := verifkit.Start(t, "C15", "twins")
 	gSeedSalt = r.Seed
-	defer r.Finish(c15Rule+" Part 1 (InMemoryStore, synctest virtual time, full volume) as described. Part 2 (EtcdStore over an embedded single-node etcd, real time, lower volume; counters prefixed etcd_): twin B is a new coordinator over a SECOND EtcdStore client to the same etcd, twin A continues on an in-memory shadow, no twin C, no time advance (timeouts >= 60 s, cleanup interval 1 h); additionally the new coordinator's restored session/rebalance timeouts are compared with the old coordinator's in-package (they have no observable effect without the passage of time); a case in which the etcd client returned any error is inconclusive, never a violation. non-trivial = failover of a group with >=2 members whose comparison phase ran",
-		"no request is in flight at the failover point (failover between requests)", "the new coordinator is touched by a request at the failover instant (it loads groups lazily)", "join reply codes during an unfinished rebalance are not compared (rebalance progress is not in the statement's list)",
+	defer r.Finish(c15Rule+" Part 1 (InMemoryStore, synctest virtual time, full volume) as described. "+c15RuleConcurrent+" Part 2 (EtcdStore over an embedded single-node etcd, real time, lower volume; counters prefixed etcd_): twin B is a new coordinator over a SECOND EtcdStore client to the same etcd, twin A continues on an in-memory shadow, no twin C, no time advance (timeouts >= 60 s, cleanup interval 1 h); additionally the new coordinator's restored session/rebalance timeouts are compared with the old coordinator's in-package (they have no observable effect without the passage of time); a case in which the etcd client returned any error is inconclusive, never a violation. non-trivial = failover of a group with >=2 members whose comparison phase ran",
+		"no request is in flight at the failover point (failover between requests; in part 1b requests overlap each other before the failover, but every one of them has been answered when the coordinator is replaced)",
+		"part 1b: the only wall-clock element is the bound under which the second request of a pair is awaited when the coordinator holds no lock (scheduling aid: on expiry the case is cut and not judged)", "the new coordinator is touched by a request at the failover instant (it loads groups lazily)", "join reply codes during an unfinished rebalance are not compared (rebalance progress is not in the statement's list)",
 		"embedded etcd is single-node; no etcd faults are injected", "a wall-clock watchdog turns a stuck etcd part into inconclusive")
 	t0 := time.Now()
 	c15Mem(t, r)
@@ -562,6 +565,9 @@ func c15Concurrent(t *testing.T, r *verifkit.Run) {
 			r.Sample(map[string]any{"part": "concurrent", "twin_A": gWitness(a, -1, nil)})
 		}
 	}
+	r.Floor("conc_failovers_after_a_request_was_held_in_a_store_call", int64(r.N(120, 1500)))
+	r.Floor("conc_failovers_with_two_or_more_members", int64(r.N(80, 1000)))
+	r.Floor("conc_twin_comparisons", int64(r.N(3000, 36000)))
 }
 
 func c15Mem(t *testing.T, r *verifkit.Run) {
